@@ -37,21 +37,14 @@ func (i *instanceMethodStrategy) evaluate(m *MethodEvaluator) error {
 				Class: m.ctx.GetClass(),
 			}
 
-		methodClassNodes := base.ClassInheritanceMap[callerNode]
-
-		var isContained bool
-
-		if methodT.DefinedFrame == m.ctx.GetFrame() && methodT.DefinedClass == m.ctx.GetClass() {
-			isContained = true
-		}
-
-		if !isContained {
-			for _, node := range methodClassNodes {
-				if node.Frame == methodT.DefinedFrame && node.Class == methodT.DefinedClass {
-					isContained = true
-				}
-			}
-		}
+		// the caller's class, or any ancestor of it, may define the protected method
+		isContained :=
+			isSelfOrAncestor(
+				callerNode,
+				methodT.DefinedFrame,
+				methodT.DefinedClass,
+				map[base.ClassNode]bool{},
+			)
 
 		if !isContained {
 			return fmt.Errorf("%s.%s is protect method", methodT.DefinedClass, methodT.GetMethodName())
@@ -59,6 +52,33 @@ func (i *instanceMethodStrategy) evaluate(m *MethodEvaluator) error {
 	}
 
 	return evaluateNoUnionInstanceMethod(m, class, methodT)
+}
+
+func isSelfOrAncestor(
+	node base.ClassNode,
+	frame, class string,
+	visited map[base.ClassNode]bool,
+) bool {
+
+	if node.Frame == frame && node.Class == class {
+		return true
+	}
+
+	key := base.ClassNode{Frame: node.Frame, Class: node.Class}
+
+	if visited[key] {
+		return false
+	}
+
+	visited[key] = true
+
+	for _, parentNode := range base.ClassInheritanceMap[key] {
+		if isSelfOrAncestor(parentNode, frame, class, visited) {
+			return true
+		}
+	}
+
+	return false
 }
 
 func (i *instanceMethodStrategy) isTransformIdentifier(method string) bool {
